@@ -338,6 +338,7 @@ def run_specs(specs):
     reg.builders = getattr(specs, "BUILDERS", {})
     reg.effects = getattr(specs, "EFFECTS", {})
     reg.abs_ctors = getattr(specs, "ABS_CONSTRUCTORS", {})
+    reg.identity_calls = getattr(specs, "IDENTITY_CALLS", [])
     for ename, eff in reg.effects.items():
         py2lean_types.EFFECT_VIEWS[ename] = eff.get("views", {})
     trees = {}
